@@ -12,44 +12,44 @@ use zkryptium::bbsplus::signature::BBSplusSignature;
 // ---- decoders -------------------------------------------------------------------------------
 pub fn dec_pk<const LEN: usize>() {
     let buf: [u8; LEN] = kani::any();
-    tp!("kind", "dec"); tp!("entry", "pk"); tp!("q", QV); tp!("bytes", &buf[..]);
+    tp!("kind", "dec"); tp!("entry", "pk"); tp!("bytes", &buf[..]);
     let r = BBSplusPublicKey::from_bytes(&buf[..]);
     kani::cover!(r.is_ok() || r.is_err(), "decoder returned");
 }
 pub fn dec_sk<const LEN: usize>() {
     let buf: [u8; LEN] = kani::any();
-    tp!("kind", "dec"); tp!("entry", "sk"); tp!("q", QV); tp!("bytes", &buf[..]);
+    tp!("kind", "dec"); tp!("entry", "sk"); tp!("bytes", &buf[..]);
     let r = BBSplusSecretKey::from_bytes(&buf[..]);
     kani::cover!(r.is_ok() || r.is_err(), "decoder returned");
 }
 pub fn dec_sig() {
     let buf: [u8; 80] = kani::any();
-    tp!("kind", "dec"); tp!("entry", "sig"); tp!("q", QV); tp!("bytes", &buf[..]);
+    tp!("kind", "dec"); tp!("entry", "sig"); tp!("bytes", &buf[..]);
     let r = BBSplusSignature::from_bytes(&buf);
     kani::cover!(r.is_ok(), "some input decodes");
     kani::cover!(r.is_err(), "some input is refused");
 }
 pub fn dec_proof<const LEN: usize>() {
     let buf: [u8; LEN] = kani::any();
-    tp!("kind", "dec"); tp!("entry", "proof"); tp!("q", QV); tp!("bytes", &buf[..]);
+    tp!("kind", "dec"); tp!("entry", "proof"); tp!("bytes", &buf[..]);
     let r = BBSplusPoKSignature::from_bytes(&buf[..]);
     kani::cover!(r.is_ok() || r.is_err(), "decoder returned");
 }
 pub fn dec_zkpok<const LEN: usize>() {
     let buf: [u8; LEN] = kani::any();
-    tp!("kind", "dec"); tp!("entry", "zkpok"); tp!("q", QV); tp!("bytes", &buf[..]);
+    tp!("kind", "dec"); tp!("entry", "zkpok"); tp!("bytes", &buf[..]);
     let r = BBSplusZKPoK::from_bytes(&buf[..]);
     kani::cover!(r.is_ok() || r.is_err(), "decoder returned");
 }
 pub fn dec_commitment<const LEN: usize>() {
     let buf: [u8; LEN] = kani::any();
-    tp!("kind", "dec"); tp!("entry", "commitment"); tp!("q", QV); tp!("bytes", &buf[..]);
+    tp!("kind", "dec"); tp!("entry", "commitment"); tp!("bytes", &buf[..]);
     let r = BBSplusCommitment::from_bytes(&buf[..]);
     kani::cover!(r.is_ok() || r.is_err(), "decoder returned");
 }
 pub fn dec_blindfactor() {
     let buf: [u8; 32] = kani::any();
-    tp!("kind", "dec"); tp!("entry", "blindfactor"); tp!("q", QV); tp!("bytes", &buf[..]);
+    tp!("kind", "dec"); tp!("entry", "blindfactor"); tp!("bytes", &buf[..]);
     let r = BlindFactor::from_bytes(&buf);
     kani::cover!(r.is_ok(), "some input decodes");
     kani::cover!(r.is_err(), "some input is refused");
@@ -62,8 +62,8 @@ pub fn suite_tag<CS: BbsCiphersuite>() -> &'static str {
 }
 fn any_pk() -> BBSplusPublicKey {
     // any G2 element, the identity included (a decoder may hand it to the operations)
-    let v: u8 = kani::any();
-    kani::assume((v as u16) < Q);
+    let v: u16 = kani::any();
+    kani::assume((v as u32) < Q);
     BBSplusPublicKey(G2Projective(v))
 }
 fn any_msgs<const N: usize>() -> (Vec<Vec<u8>>, [u8; N]) {
@@ -77,41 +77,34 @@ fn any_msgs<const N: usize>() -> (Vec<Vec<u8>>, [u8; N]) {
     (v, raw)
 }
 fn any_sig_bytes() -> [u8; 80] {
-    // an arbitrary *decodable* signature: canonical framing, arbitrary values (identity / zero too)
-    let a: u8 = kani::any();
-    let e: u8 = kani::any();
-    kani::assume((a as u16) < Q && (e as u16) < Q);
+    // an arbitrary *decodable* signature in canonical framing (non-identity A, one-octet e):
+    // decoding it does not branch on the symbolic payload
     let mut b = [0u8; 80];
-    b[0] = if a == 0 { 0xC0 } else { 0x80 };
-    b[47] = a;
-    b[79] = e;
+    put_g1(&mut b, 0);
+    put_scalar(&mut b, 48);
     b
 }
 /// arbitrary decodable proof with U undisclosed responses, built through the real decoder
 fn any_proof<CS: BbsCiphersuite, const U: usize, const LEN: usize>() -> (PoKSignature<BBSplus<CS>>, [u8; LEN]) {
     let mut b = [0u8; LEN];
-    let mut k = 0;
-    while k < 3 {
-        let v: u8 = kani::any();
-        kani::assume((v as u16) < Q);
-        b[48 * k] = if v == 0 { 0xC0 } else { 0x80 };
-        b[48 * k + 47] = v;
-        k += 1;
-    }
+    put_g1(&mut b, 0);
+    put_g1(&mut b, 48);
+    put_g1(&mut b, 96);
     let mut j = 0;
     while j < 4 + U {
-        let v: u8 = kani::any();
-        kani::assume((v as u16) < Q);
-        b[144 + 32 * j + 31] = v;
+        put_scalar(&mut b, 144 + 32 * j);
         j += 1;
     }
     (PoKSignature::<BBSplus<CS>>::from_bytes(&b[..]).unwrap(), b)
 }
-fn any_opt_bytes1(flag: u8, store: &[u8; 1]) -> Option<&[u8]> {
-    match flag % 3 {
-        0 => None,
-        1 => Some(&store[..0]),
-        _ => Some(&store[..]),
+/// header / presentation-header shape: 0 = None, 1 = Some(b""), 2 = Some(one symbolic byte)
+fn opt_shape<const SH: usize>(store: &[u8; 1]) -> Option<&[u8]> {
+    if SH == 0 {
+        None
+    } else if SH == 1 {
+        Some(&store[..0])
+    } else {
+        Some(&store[..])
     }
 }
 fn init_stubs(budget: usize) {
@@ -124,130 +117,234 @@ fn init_stubs(budget: usize) {
 }
 
 // ---- operations on untrusted values -----------------------------------------------------------
-/// verify: arbitrary decodable signature, any public key, L one-byte messages, any header shape
-pub fn op_verify<CS: BbsCiphersuite, const L: usize>() {
+// Inputs that go through a decoder are given in canonical framing with symbolic payload octets
+// (every payload octet is a valid value in the model group), so that container lengths stay concrete
+// for the symbolic-execution engine; robustness of the decoders against *arbitrary* octets is the
+// job of the dec_* harnesses above.
+
+/// verify: arbitrary decodable signature, any public key, L one-byte messages, header shape HDR
+pub fn op_verify<CS: BbsCiphersuite, const L: usize, const HDR: usize, const MNONE: bool>() {
     init_stubs(L + 1);
     let pk = any_pk();
     let sig_raw = any_sig_bytes();
     let sig = Signature::<BBSplus<CS>>::from_bytes(&sig_raw).unwrap();
     let (msgs, msgs_raw) = any_msgs::<L>();
     let hs: [u8; 1] = kani::any();
-    let hdr = any_opt_bytes1(kani::any(), &hs);
-    let use_none: bool = kani::any();
-    tp!("kind", "op"); tp!("entry", "verify"); tp!("suite", suite_tag::<CS>()); tp!("q", QV);
+    let hdr = opt_shape::<HDR>(&hs);
+    tp!("kind", "op"); tp!("entry", "verify"); tp!("suite", suite_tag::<CS>());
     tp!("pk", pk.0 .0); tp!("sig", &sig_raw[..]); tp!("msgs", &msgs_raw[..]); tp!("hdr", hdr);
-    let r = sig.verify(&pk, if use_none && L == 0 { None } else { Some(&msgs) }, hdr);
+    let r = sig.verify(&pk, if MNONE { None } else { Some(&msgs) }, hdr);
     kani::cover!(r.is_ok() || r.is_err(), "verify returned");
 }
 
-/// proof_verify: arbitrary decodable proof with U responses, R arbitrary usize indexes, NM messages
-pub fn op_proof_verify<CS: BbsCiphersuite, const U: usize, const LEN: usize, const R: usize, const NM: usize>() {
-    init_stubs(U + R + 1);
+/// index-list shapes: 0 = [], 1 = [any usize], 2 = [0, 1], 3 = [1, 0], 4 = [0, 0], 5 = [0, usize::MAX],
+/// 6 = [any usize, any usize] (thorough only: the symbolic sort/dedup makes the list length symbolic)
+fn idx_shape<const SH: usize>() -> Vec<usize> {
+    let a: usize = kani::any();
+    match SH {
+        0 => Vec::new(),
+        1 => vec![a],
+        2 => vec![0, 1],
+        3 => vec![1, 0],
+        4 => vec![0, 0],
+        5 => vec![0, usize::MAX],
+        _ => {
+            let b: usize = kani::any();
+            vec![a, b]
+        }
+    }
+}
+
+/// proof_verify: arbitrary decodable proof with U responses, index list of shape ISH, NM messages
+pub fn op_proof_verify<CS: BbsCiphersuite, const U: usize, const LEN: usize, const ISH: usize, const NM: usize, const HDR: usize, const PH: usize>() {
+    init_stubs(U + 2 + 1);
     let pk = any_pk();
     let (proof, proof_raw) = any_proof::<CS, U, LEN>();
-    let idx: [usize; R] = kani::any();
+    let idx = idx_shape::<ISH>();
     let (msgs, msgs_raw) = any_msgs::<NM>();
     let hs: [u8; 1] = kani::any();
     let ps: [u8; 1] = kani::any();
-    let hdr = any_opt_bytes1(kani::any(), &hs);
-    let ph = any_opt_bytes1(kani::any(), &ps);
-    tp!("kind", "op"); tp!("entry", "proof_verify"); tp!("suite", suite_tag::<CS>()); tp!("q", QV);
+    let hdr = opt_shape::<HDR>(&hs);
+    let ph = opt_shape::<PH>(&ps);
+    tp!("kind", "op"); tp!("entry", "proof_verify"); tp!("suite", suite_tag::<CS>());
     tp!("pk", pk.0 .0); tp!("proof", &proof_raw[..]); tp!("msgs", &msgs_raw[..]); tp!("idx", &idx[..]); tp!("hdr", hdr); tp!("ph", ph);
     let r = proof.proof_verify(&pk, Some(&msgs), Some(&idx), hdr, ph);
     kani::cover!(r.is_ok() || r.is_err(), "proof_verify returned");
 }
 
-/// blind_proof_verify: as above plus an arbitrary `L: Option<usize>` and two index lists
-pub fn op_blind_proof_verify<CS: BbsCiphersuite, const U: usize, const LEN: usize, const R1: usize, const R2: usize>() {
-    // the work the verifier may do is bounded by what it was handed: U + R1 + R2 (+2 bases)
-    init_stubs(U + R1 + R2 + 2);
+/// Stub for `prepare_parameters` used by the arithmetic harness of blind_proof_verify: records the
+/// requested generator counts and refuses, so that only the caller's own arithmetic is executed.
+pub static mut PP_GENS: usize = 0;
+pub static mut PP_BLIND_GENS: usize = 0;
+pub static mut PP_CALLS: usize = 0;
+pub fn prepare_parameters_refuse<CS>(
+    _messages: Option<&[Vec<u8>]>,
+    _committed_messages: Option<&[Vec<u8>]>,
+    generators_number: usize,
+    blind_generators_number: usize,
+    _secret_prover_blind: Option<&BlindFactor>,
+    _api_id: Option<&[u8]>,
+) -> Result<(Vec<zkryptium::utils::message::bbsplus_message::BBSplusMessage>, Generators), Error>
+where
+    CS: BbsCiphersuite,
+    CS::Expander: for<'a> elliptic_curve::hash2curve::ExpandMsg<'a>,
+{
+    unsafe {
+        PP_GENS = generators_number;
+        PP_BLIND_GENS = blind_generators_number;
+        PP_CALLS += 1;
+    }
+    Err(Error::NotEnoughGenerators)
+}
+
+/// blind_proof_verify, arithmetic part: `L` is ANY usize (or None); prepare_parameters is stubbed
+/// to record what would be requested.  No overflow / panic may happen before the request, and the
+/// request must be bounded by what the verifier was handed (work bound).
+pub fn op_bpv_arith<CS: BbsCiphersuite, const U: usize, const LEN: usize, const R1: usize, const R2: usize, const LNONE: bool>() {
     let pk = any_pk();
     let (proof, proof_raw) = any_proof::<CS, U, LEN>();
-    let idx1: [usize; R1] = kani::any();
-    let idx2: [usize; R2] = kani::any();
+    let idx1: [usize; R1] = core::array::from_fn(|i| i);
+    let idx2: [usize; R2] = core::array::from_fn(|i| i);
     let (m1, m1_raw) = any_msgs::<R1>();
     let (m2, m2_raw) = any_msgs::<R2>();
-    let l: Option<usize> = kani::any();
-    let hs: [u8; 1] = kani::any();
-    let hdr = any_opt_bytes1(kani::any(), &hs);
-    tp!("kind", "op"); tp!("entry", "blind_proof_verify"); tp!("suite", suite_tag::<CS>()); tp!("q", QV);
+    let lv: usize = kani::any();
+    let l: Option<usize> = if LNONE { None } else { Some(lv) };
+    tp!("kind", "op"); tp!("entry", "blind_proof_verify"); tp!("suite", suite_tag::<CS>());
     tp!("pk", pk.0 .0); tp!("proof", &proof_raw[..]); tp!("msgs", &m1_raw[..]); tp!("cmsgs", &m2_raw[..]);
-    tp!("idx", &idx1[..]); tp!("idx2", &idx2[..]); tp!("L", l); tp!("hdr", hdr);
-    let r = proof.blind_proof_verify(&pk, hdr, None, l, Some(&m1), Some(&m2), Some(&idx1), Some(&idx2));
+    tp!("idx", &idx1[..]); tp!("idx2", &idx2[..]); tp!("L", l);
+    let r = proof.blind_proof_verify(&pk, None, None, l, Some(&m1), Some(&m2), Some(&idx1), Some(&idx2));
+    kani::cover!(r.is_err(), "blind_proof_verify returned");
+    let (g, bg) = unsafe { (PP_GENS, PP_BLIND_GENS) };
+    if unsafe { PP_CALLS } > 0 {
+        // total generators requested never exceed what a proof with U hidden and R1 + R2 disclosed
+        // messages can involve (U + R1 + R2 messages, plus Q1 and Q2)
+        assert!(g <= U + R1 + R2 + 2 && bg <= U + R1 + R2 + 2, "WORK-BOUND: generator request not bounded by the input");
+    }
+}
+
+/// blind_proof_verify, index part: concrete L = LC, index lists of shapes ISH1 / ISH2
+pub fn op_blind_proof_verify<CS: BbsCiphersuite, const U: usize, const LEN: usize, const LC: usize, const ISH1: usize, const ISH2: usize, const N1: usize, const N2: usize>() {
+    init_stubs(U + 4 + 2);
+    let pk = any_pk();
+    let (proof, proof_raw) = any_proof::<CS, U, LEN>();
+    let idx1 = idx_shape::<ISH1>();
+    let idx2 = idx_shape::<ISH2>();
+    let (m1, m1_raw) = any_msgs::<N1>();
+    let (m2, m2_raw) = any_msgs::<N2>();
+    let hs: [u8; 1] = kani::any();
+    let hdr = opt_shape::<2>(&hs);
+    tp!("kind", "op"); tp!("entry", "blind_proof_verify"); tp!("suite", suite_tag::<CS>());
+    tp!("pk", pk.0 .0); tp!("proof", &proof_raw[..]); tp!("msgs", &m1_raw[..]); tp!("cmsgs", &m2_raw[..]);
+    tp!("idx", &idx1[..]); tp!("idx2", &idx2[..]); tp!("L", Some(LC)); tp!("hdr", hdr);
+    let r = proof.blind_proof_verify(&pk, hdr, None, Some(LC), Some(&m1), Some(&m2), Some(&idx1), Some(&idx2));
     kani::cover!(r.is_ok() || r.is_err(), "blind_proof_verify returned");
 }
 
-/// blind_sign: arbitrary commitment_with_proof octets of length LEN, L signer messages
+/// canonical commitment_with_proof framing of total length LEN (>= 48): point, then as many whole
+/// scalars as fit, then symbolic trailing octets
+fn any_commitment_bytes<const LEN: usize>() -> [u8; LEN] {
+    let mut b = [0u8; LEN];
+    if LEN >= 48 {
+        put_g1(&mut b, 0);
+        let mut off = 48;
+        while off + 32 <= LEN {
+            put_scalar(&mut b, off);
+            off += 32;
+        }
+        while off < LEN {
+            b[off] = kani::any();
+            off += 1;
+        }
+    } else {
+        let mut off = 0;
+        while off < LEN {
+            b[off] = kani::any();
+            off += 1;
+        }
+    }
+    b
+}
+
+/// blind_sign: commitment_with_proof octets of length LEN in canonical framing, L signer messages
 pub fn op_blind_sign<CS: BbsCiphersuite, const LEN: usize, const L: usize>() {
     init_stubs(LEN / 32 + L + 2);
-    any_h2s_table();
     let sk = any_sk();
     let pk = any_pk();
-    let buf: [u8; LEN] = kani::any();
+    let buf = any_commitment_bytes::<LEN>();
     let (msgs, msgs_raw) = any_msgs::<L>();
-    tp!("kind", "op"); tp!("entry", "blind_sign"); tp!("suite", suite_tag::<CS>()); tp!("q", QV);
+    tp!("kind", "op"); tp!("entry", "blind_sign"); tp!("suite", suite_tag::<CS>());
     tp!("pk", pk.0 .0); tp!("commitment", &buf[..]); tp!("msgs", &msgs_raw[..]);
     let r = BlindSignature::<BBSplus<CS>>::blind_sign(&sk, &pk, Some(&buf[..]), None, Some(&msgs));
     kani::cover!(r.is_ok() || r.is_err(), "blind_sign returned");
 }
 
 /// verify_blind_sign: arbitrary signature, L signer messages, M committed messages, any blind factor
-pub fn op_verify_blind_sign<CS: BbsCiphersuite, const L: usize, const M: usize>() {
+pub fn op_verify_blind_sign<CS: BbsCiphersuite, const L: usize, const M: usize, const USEBF: bool>() {
     init_stubs(L + M + 2);
     let pk = any_pk();
     let sig_raw = any_sig_bytes();
     let sig = BlindSignature::<BBSplus<CS>>::from_bytes(&sig_raw).unwrap();
     let (msgs, msgs_raw) = any_msgs::<L>();
     let (cmsgs, cmsgs_raw) = any_msgs::<M>();
-    let bf_bytes = any_scalar().to_be_bytes();
+    let mut bf_bytes = [0u8; 32];
+    put_scalar(&mut bf_bytes, 0);
     let bf = BlindFactor::from_bytes(&bf_bytes).unwrap();
-    let use_bf: bool = kani::any();
-    tp!("kind", "op"); tp!("entry", "verify_blind_sign"); tp!("suite", suite_tag::<CS>()); tp!("q", QV);
-    tp!("pk", pk.0 .0); tp!("sig", &sig_raw[..]); tp!("msgs", &msgs_raw[..]); tp!("cmsgs", &cmsgs_raw[..]); tp!("bf", &bf_bytes[..]); tp!("use_bf", use_bf);
-    let r = sig.verify_blind_sign(&pk, None, Some(&msgs), Some(&cmsgs), if use_bf { Some(&bf) } else { None });
+    tp!("kind", "op"); tp!("entry", "verify_blind_sign"); tp!("suite", suite_tag::<CS>());
+    tp!("pk", pk.0 .0); tp!("sig", &sig_raw[..]); tp!("msgs", &msgs_raw[..]); tp!("cmsgs", &cmsgs_raw[..]); tp!("bf", &bf_bytes[..]); tp!("use_bf", USEBF);
+    let r = sig.verify_blind_sign(&pk, None, Some(&msgs), Some(&cmsgs), if USEBF { Some(&bf) } else { None });
     kani::cover!(r.is_ok() || r.is_err(), "verify_blind_sign returned");
 }
 
-/// deserialize_and_validate_commit: arbitrary octets, G blind generators (public fn, callable alone)
+/// deserialize_and_validate_commit: canonical framing of length LEN, G blind generators
 pub fn op_deser_commit<CS: BbsCiphersuite, const LEN: usize, const G: usize>() {
     init_stubs(G);
-    let buf: [u8; LEN] = kani::any();
+    let buf = any_commitment_bytes::<LEN>();
     let gens = stubs::gens_stub::<CS>(G, Some(b"BLIND_x"));
-    tp!("kind", "op"); tp!("entry", "deserialize_and_validate_commit"); tp!("suite", suite_tag::<CS>()); tp!("q", QV);
+    tp!("kind", "op"); tp!("entry", "deserialize_and_validate_commit"); tp!("suite", suite_tag::<CS>());
     tp!("commitment", &buf[..]); tp!("G", G);
     let r = Commitment::<BBSplus<CS>>::deserialize_and_validate_commit(Some(&buf[..]), &gens, Some(CS::API_ID_BLIND));
     kani::cover!(r.is_ok() || r.is_err(), "deserialize_and_validate_commit returned");
 }
 
-/// proof_gen: arbitrary signature octets (LEN), L messages, R arbitrary usize indexes
-pub fn op_proof_gen<CS: BbsCiphersuite, const SLEN: usize, const L: usize, const R: usize>() {
+/// proof_gen: signature octets (SLEN; canonical framing when 80), L messages, index list shape ISH
+pub fn op_proof_gen<CS: BbsCiphersuite, const SLEN: usize, const L: usize, const ISH: usize>() {
     init_stubs(L + 1);
     let pk = any_pk();
-    let sb: [u8; SLEN] = kani::any();
+    let mut sb = [0u8; SLEN];
+    if SLEN == 80 {
+        put_g1(&mut sb, 0);
+        put_scalar(&mut sb, 48);
+    } else {
+        let mut i = 0;
+        while i < SLEN {
+            sb[i] = kani::any();
+            i += 1;
+        }
+    }
     let (msgs, msgs_raw) = any_msgs::<L>();
-    let idx: [usize; R] = kani::any();
-    tp!("kind", "op"); tp!("entry", "proof_gen"); tp!("suite", suite_tag::<CS>()); tp!("q", QV);
+    let idx = idx_shape::<ISH>();
+    tp!("kind", "op"); tp!("entry", "proof_gen"); tp!("suite", suite_tag::<CS>());
     tp!("pk", pk.0 .0); tp!("sig", &sb[..]); tp!("msgs", &msgs_raw[..]); tp!("idx", &idx[..]);
     let r = PoKSignature::<BBSplus<CS>>::proof_gen(&pk, &sb[..], None, None, Some(&msgs), Some(&idx));
     kani::cover!(r.is_ok() || r.is_err(), "proof_gen returned");
 }
 
-/// blind_proof_gen: arbitrary decodable signature, L / M messages, arbitrary usize index lists
-pub fn op_blind_proof_gen<CS: BbsCiphersuite, const L: usize, const M: usize, const R1: usize, const R2: usize>() {
+/// blind_proof_gen: arbitrary decodable signature, L / M messages, index list shapes
+pub fn op_blind_proof_gen<CS: BbsCiphersuite, const L: usize, const M: usize, const ISH1: usize, const ISH2: usize>() {
     init_stubs(L + M + 2);
     let pk = any_pk();
     let sb = any_sig_bytes();
     let (msgs, msgs_raw) = any_msgs::<L>();
     let (cmsgs, cmsgs_raw) = any_msgs::<M>();
-    let idx1: [usize; R1] = kani::any();
-    let idx2: [usize; R2] = kani::any();
-    tp!("kind", "op"); tp!("entry", "blind_proof_gen"); tp!("suite", suite_tag::<CS>()); tp!("q", QV);
+    let idx1 = idx_shape::<ISH1>();
+    let idx2 = idx_shape::<ISH2>();
+    tp!("kind", "op"); tp!("entry", "blind_proof_gen"); tp!("suite", suite_tag::<CS>());
     tp!("pk", pk.0 .0); tp!("sig", &sb[..]); tp!("msgs", &msgs_raw[..]); tp!("cmsgs", &cmsgs_raw[..]); tp!("idx", &idx1[..]); tp!("idx2", &idx2[..]);
     let r = PoKSignature::<BBSplus<CS>>::blind_proof_gen(&pk, &sb[..], None, None, Some(&msgs), Some(&cmsgs), Some(&idx1), Some(&idx2), None);
     kani::cover!(r.is_ok() || r.is_err(), "blind_proof_gen returned");
 }
 
-/// update_signature: arbitrary signature, any `update_index: usize`; `n` is N or (BIG) near usize::MAX
+/// update_signature: arbitrary signature, any `update_index: usize`; `n` is N or (BIG) usize::MAX
 pub fn op_update<CS: BbsCiphersuite, const N: usize, const BIG: bool>() {
     init_stubs(N + 1);
     let sk = any_sk();
@@ -257,7 +354,7 @@ pub fn op_update<CS: BbsCiphersuite, const N: usize, const BIG: bool>() {
     let n: usize = if BIG { usize::MAX } else { N };
     let o: [u8; 1] = kani::any();
     let w: [u8; 1] = kani::any();
-    tp!("kind", "op"); tp!("entry", "update_signature"); tp!("suite", suite_tag::<CS>()); tp!("q", QV);
+    tp!("kind", "op"); tp!("entry", "update_signature"); tp!("suite", suite_tag::<CS>());
     tp!("sig", &sig_raw[..]); tp!("old", &o[..]); tp!("new", &w[..]); tp!("ui", ui); tp!("n", n);
     let r = sig.update_signature(&sk, &o, &w, ui, n);
     kani::cover!(r.is_ok() || r.is_err(), "update_signature returned");
